@@ -112,19 +112,18 @@ def via_history(obj, rng):
             m = V.mean(axis=0)
             diam = float(np.max(np.linalg.norm(V - m, axis=1))) * 2 + 1e-300
             sphero = name.startswith("ConvexSphero")
-            k = 1.0 if sphero else float(np.exp(rng.uniform(-1.2, 1.2)))
-            if name in ("Polygon", "ConvexPolygon", "ConvexSpheropolygon") and sphero:
-                # ConvexSpheropolygon has no centroid setter on all versions: keep it in place if so
-                pass
+            k = float(np.exp(rng.uniform(-1.2, 1.2)))
             t = rng.normal(size=3) * diam * float(rng.uniform(0.2, 2.0))
-            if sphero:
-                t = t * 0.0        # spheropolytopes have no centre setter: only the radius is walked
             if V.shape[1] == 2:
                 t = t[:2]
-            V0 = m + k * (V - m) + t
-            r0 = None
             if sphero:
-                r0 = float(obj.radius) * float(np.exp(rng.uniform(-1.0, 1.0))) + (0.1 * diam if rng.random() < 0.3 else 0.0)
+                # spheropolytopes have no centre setter, and every _rescale of the library scales about the ORIGIN with
+                # the rounding radius scaled along: start from k*V, k*r and let a size setter undo the factor
+                V0 = k * V
+                r0 = k * float(obj.radius)
+            else:
+                V0 = m + k * (V - m) + t
+                r0 = None
             o = _clone_with(obj, V0, r0)
             warm(o, rng)
             how = []
@@ -144,8 +143,12 @@ def via_history(obj, rng):
                 setattr(o, sname, float(getattr(obj, sname)))
                 how.append(sname)
             else:
-                o.radius = float(obj.radius)
-                how.append("radius")
+                three_d = name == "ConvexSpheropolyhedron"
+                setters = ["volume", "surface_area", "mean_curvature"] if three_d else ["area", "perimeter"]
+                sname = setters[int(rng.integers(len(setters)))]
+                setattr(o, sname, float(getattr(obj, sname)))
+                o.radius = float(obj.radius)          # the rescale left k*r/k: put the exact radius back
+                how += [sname, "radius"]
             if sphero:
                 return o, "via:" + "+".join(how)
             cattr = "centroid" if (rng.random() < 0.5 or not hasattr(type(obj), "center")) else "center"
